@@ -76,4 +76,20 @@ AD_OP(ublas) {
     auto A = be::map(U);
     return view(A, x);
 }
+// nested <op> ... : the same operation called from inside an ACTIVE parallel region of the caller (nested parallelism off, the
+// default): the library's own parallel regions then run with a team of ONE thread while omp_get_max_threads() still reports the
+// configured count -- an application that solves independent systems in an outer parallel loop does exactly this
+#include <omp.h>
+VQ_OP(nested) {
+    std::string op = t.s(); auto it = vq::registry().find(op);
+    if (it == vq::registry().end()) return "UNSUPPORTED";
+    std::string r; int team = 0;
+    #pragma omp parallel num_threads(2)
+    {
+        #pragma omp master
+        { team = omp_get_num_threads(); try { r = it->second(t); } catch (const std::exception &e) { r = "EXC " + vq::exc_kind(e); } }
+    }
+    if (team != 2 || omp_get_max_threads() < 3) return "HARNESS no-enclosing-team";
+    return r;
+}
 int main() { return vq::driver_main(); }
